@@ -310,6 +310,9 @@ func (e *fnEnc) call0(v ssa.Value, c *ssa.CallCommon, instr ssa.Instruction) {
 		}
 	}
 	contract := e.vc.P.Contract(fn)
+	if contract.IsTransparent() {
+		contract = nil
+	}
 	if contract != nil && !contract.Pure {
 		defer e.materialiseInterior(fn, c, args)()
 	}
